@@ -216,6 +216,18 @@ theorem type_entry_faithful (ts now : UInt32) (cs : Schema) (out : SchemaV4)
   · rw [(applyAll_fixed _ _).2.1]; rfl
   · rw [(applyAll_fixed _ _).2.2]; rfl
 
+/-- C26 (parameter kinds): in the entry of a declared type, bit `i` (`i < 64`) of `params_type` is set iff the
+`i`-th template argument of the type's first constructor exists and is a `#` -/
+theorem type_param_kinds (ts now : UInt32) (cs : Schema) (out : SchemaV4)
+    (h : generateTLO ts now cs = .ok out) (T : String) (h1 : T ≠ "#") (h2 : T ≠ "Type")
+    (c : Comb) (rest : List Comb) (hc : ctorsOf cs T = c :: rest) (i : Nat) (hi : i < 64) :
+    ∃ t ∈ out.types, t.id = strBytes T ∧
+      t.paramsType.toNat.testBit i = ((c.targs[i]?).map (·.isNat)).getD false := by
+  obtain ⟨t, _, hin, hid, _, _, _, hp⟩ := type_entry_faithful ts now cs out h T h1 h2 c rest hc
+  refine ⟨t, hin, hid, ?_⟩
+  rw [hp, paramsTypeOf_testBit c.targs 0 i hi]
+  simp
+
 /-- C26 (types): the name of every declared type is the XOR of its constructor tags -/
 theorem type_name_is_xor_of_tags (ts now : UInt32) (cs : Schema) (out : SchemaV4)
     (h : generateTLO ts now cs = .ok out) (T : String) (h1 : T ≠ "#") (h2 : T ≠ "Type")
